@@ -699,7 +699,6 @@ func TestRegOracleSilenceClause(t *testing.T) {
 	}
 }
 
-
 // noSites switches the call-site distinction of the oracle off (and back on).
 func noSites() func() {
 	old := scn.SiteOfLine
